@@ -13,6 +13,7 @@ import OFV.Proofs.C01Qubit
 import OFV.Proofs.C01Ising
 import OFV.Proofs.C01Majorana
 import OFV.Proofs.C01Hom
+import OFV.Proofs.SpecCAR
 
 namespace OFV.C01
 open OFV OFV.Spec OFV.Generated OFV.Model
@@ -318,6 +319,20 @@ theorem mul_hom_majorana (A B : MOp) (hA : ∀ e ∈ A, e.1.Pairwise (· < ·))
 /-- `⟦A += B⟧ = ⟦A⟧ + ⟦B⟧` for MajoranaOperator (no deletion of small sums there). -/
 theorem add_hom_majorana (φ : MTerm → GQ) (A B : MOp) : den φ (miadd A B) = den φ A + den φ B :=
   den_miadd φ A B
+
+/-- Sanity of the fermionic Spec all fermion statements (C03, C04, …) are measured against: the
+ladder action on Fock masks satisfies the canonical anticommutation relations
+`a_j² = a†_j² = 0`, `a_j a†_j + a†_j a_j = 1`, and anticommutation on different modes. -/
+theorem spec_fermion_car (i j a b s : Nat) (x : Option (Nat × Nat)) :
+    stepF (j, a) (stepF (j, a) x) = none ∧
+    ((s.testBit j = true →
+        stepF (j, 1) (stepF (j, 0) (some (0, s))) = some (0, s) ∧
+        stepF (j, 0) (stepF (j, 1) (some (0, s))) = none) ∧
+     (s.testBit j = false →
+        stepF (j, 0) (stepF (j, 1) (some (0, s))) = some (0, s) ∧
+        stepF (j, 1) (stepF (j, 0) (some (0, s))) = none)) ∧
+    (i ≠ j → stepF (i, a) (stepF (j, b) x) = negF (stepF (j, b) (stepF (i, a) x))) :=
+  ⟨car_square j a x, car_number j s, fun h => car_anticomm i j a b h x⟩
 
 example : ExactAdd GQ.eqTol [([(0, 1)], 1)] [([(0, 1)], -1), ([(2, 3)], GQ.I)] := by
   refine ⟨fun _ => by decide +kernel, fun h => ?_, trivial⟩
